@@ -32,9 +32,14 @@ def make_zoo():
     def fact(n):
         return 1 if n <= 1 else n * fact(n - 1)
 
+    def defaults(x, y=2):
+        return x + y
+    closure._tagged = ("k", 7)          # attribute reads are forwarded whatever the name looks like
+
     class Adder:
         def __init__(self, a, b=1):
             self.a, self.b = a, b
+            self._step = a + 10
 
         def __call__(self, x):
             return x + self.a + self.b
@@ -70,11 +75,12 @@ def make_zoo():
         "cls_mixin_call": (Mixed, None, None),
         "cls_slotted": (Slotted, None, None),
         "inherits_instance": (Inherits(1, b=2), [(10,)], ["a", "b"]),
-        "lambda": (lambda x: x + 1, [(3,)], []),
-        "closure": (closure, [(3,)], []),
-        "nested": (outer(), [(4,)], []),
+        "lambda": (lambda x: x + 1, [(3,)], ["__name__"]),
+        "closure": (closure, [(3,)], ["__name__", "__qualname__", "_tagged", "_missing"]),
+        "nested": (outer(), [(4,)], ["__qualname__"]),
         "recursive": (fact, [(5,)], []),
-        "callable_instance": (Adder(2, b=3), [(10,)], ["a", "b"]),
+        "defaults": (defaults, [(1,), (1, 5)], ["__defaults__", "__name__"]),
+        "callable_instance": (Adder(2, b=3), [(10,)], ["a", "b", "_step"]),
         "plain_instance": (Plain(4), [], ["a", "b", "tag"]),
         "builtin": (len, [([1, 2, 3],)], []),
         "cls_callable": (Adder, None, None),
